@@ -104,7 +104,8 @@ def make_plan(seed: int, tier: str, index: int) -> dict[str, Any]:
         strict = f.random() < 0.7
         tmpl = f.choice(STRICT[fam] if strict else RELATIVE[fam])
         line = tmpl.replace("{t}", str(f.choice([0, 1, 50, 192, 99999])))
-        for _m in range(f.choice([1, 1, 1, 2, 3])):
+        flood = f.random() < 0.04
+        for _m in range(f.choice([1, 1, 1, 2, 3]) if not flood else f.choice([101, 128, 257, 300])):
             junk.append({"line": line, "strict": strict})
     # A: junk inserted at random positions
     a_body = [{"line": ln, "junk": None} for ln in body]
